@@ -1144,7 +1144,9 @@ func (x *Exec) final() {
 		}
 	}
 	if x.ifaceBuilder != nil {
-		catchCall(func() { x.ifaceBuilder.Reset() })
+		if pv := catchCall(func() { x.ifaceBuilder.Reset() }); pv != nil {
+			x.fail("reject/reset-panics", "Builder.Reset panicked after rejected interface configurations on that builder: %v", pv)
+		}
 		ifc.ResetVars()
 	}
 	for _, s := range x.st {
